@@ -57,7 +57,7 @@ def main():
                 continue
             jobs.append(('seed', name, d + '/patch.diff', PROPS if '--all' in a else [name[:3]]))
     if '--refactors' in a or not any(x in a for x in ('--seeds', '--refactors')):
-        for f in sorted(glob.glob('/verif/seeded/refactors/*.diff')):
+        for f in sorted(glob.glob('/verif/seeded/refactors/*.diff') + glob.glob('/verif/seeded/refactors2/*.diff')):
             name = os.path.basename(f)[:-5]
             if only and only not in name:
                 continue
